@@ -31,7 +31,7 @@ def strat_reductions(draw, tier):
     kind = draw(st.sampled_from(['nested_all_one', 'cnl_degenerate', 'nested_mu_one', 'cnl_mu_one',
                                  'nested_tuple', 'cnl_tuple', 'nested_mu_tuple']))
     case = dict(table=table, alts=alts, kind=kind, utils=draw(mc.utilities(info, alts, BETA_POOL)),
-                av=draw(mc.availabilities(info, alts)), nests=None, mu=None, log_gi=None, np_seed=0)
+                av=draw(mc.availabilities(info, alts, table)), nests=None, mu=None, log_gi=None, np_seed=0)
     case['av_order'] = list(draw(st.permutations(alts))) if draw(st.booleans()) else None
     case['nest_names'] = draw(st.sampled_from(['indexed', 'indexed', 'none', 'same']))
     if kind == 'nested_all_one':
@@ -151,7 +151,7 @@ def strat_generating(draw, tier):
     # nest parameters as plain numbers here: the utilities are the only free parameters
     nests = [[['Lit', mc._pv(mu)] if mu[0] == 'Beta' else mu, g] for mu, g in nests]
     return dict(table=table, alts=alts, names=list(names), values=values, nests=nests,
-                av=draw(mc.availabilities(info, alts)), tuple_syntax=draw(st.booleans()), np_seed=0,
+                av=draw(mc.availabilities(info, alts, table)), tuple_syntax=draw(st.booleans()), np_seed=0,
                 nest_names=draw(st.sampled_from(['indexed', 'none', 'same'])))
 
 
